@@ -97,7 +97,8 @@ func (c *deployCommand) preRun(cmd *cobra.Command, args []string) error {
 	}
 
 	if c.args.ServiceOptions.TLSEnabled {
-		if len(c.args.ServiceOptions.Hosts) == 0 {
+		// Normalize() turns an empty host list into [""], so look for the empty host.
+		if len(c.args.ServiceOptions.Hosts) == 0 || slices.Contains(c.args.ServiceOptions.Hosts, "") {
 			return fmt.Errorf("host must be set when using TLS")
 		}
 
